@@ -29,7 +29,7 @@ RelationsHold == P03(Def, Obs)
 SourcesHonest == P06(Def, Obs)
 ActionsFold == P07(Def, Obs, Top)
 AttributionSound == IndexDistinct(Def, Obs) /\ (Obs.outcome = "Ok" => ValuesFromArgv(Def, EffArgv(Def, argv), Obs))
-TailVerbatim == P05(Def, EffArgv(Def, argv), Obs, Top) /\ P05Err(Def, Obs, Top)
+TailVerbatim == P05(Def, EffArgv(Def, argv), Obs, Top) /\ P05Err(Def, Obs, Top) /\ P05Keep(Def, EffArgv(Def, argv), Obs, Top)
 ChainAndGlobals == P09(Def, Obs, Top, Obs)
 Rejections == KindContract(Obs) /\ (Obs.outcome = "Err" => Justified(Def, Obs, Top))
 
